@@ -69,6 +69,7 @@ type c16Decl struct {
 type c16Module struct {
 	Name  string
 	Decls []c16Decl
+	Dep   *c16Module `json:",omitempty"` // the module of the included file "<Dep.Name>.tars" whose types this one uses
 }
 
 // ---------- printing to tokens ----------
@@ -91,7 +92,11 @@ func (t *c16Ty) toks() []string {
 }
 
 func (m *c16Module) toks() []string {
-	o := []string{"module", m.Name, "{"}
+	var o []string
+	if m.Dep != nil {
+		o = append(o, "#include", `"`+m.Dep.Name+`.tars"`)
+	}
+	o = append(o, "module", m.Name, "{")
 	for _, d := range m.Decls {
 		switch {
 		case d.E != nil:
@@ -205,11 +210,13 @@ type c16GenOpt struct {
 	Compilable bool // stay inside the fragment whose generated Go must compile (no known gaps, Go-safe names)
 	Gaps       bool // include the known codegen gaps (byte arrays, enum arrays)
 	Small      bool
+	IdBase     int // first number used in generated names (keeps the names of two modules apart)
 }
 
 var c16Scalars = []string{"int", "bool", "short", "byte", "long", "float", "double", "string"}
 
 type c16Gen struct {
+	dep     *c16Module
 	rng     *rand.Rand
 	opt     c16GenOpt
 	enums   []*c16Enum
@@ -252,6 +259,19 @@ func (g *c16Gen) ty(depth int, self string) *c16Ty {
 	r := g.rng.Intn(10)
 	switch {
 	case r < 4 || depth <= 0:
+		if g.dep != nil && g.rng.Intn(3) == 0 { // a struct or enum of the included module
+			var names []string
+			for _, d := range g.dep.Decls {
+				if d.S != nil {
+					names = append(names, d.S.Name)
+				} else if d.E != nil {
+					names = append(names, d.E.Name)
+				}
+			}
+			if len(names) > 0 {
+				return &c16Ty{K: "name", Name: g.dep.Name + "::" + names[g.rng.Intn(len(names))]}
+			}
+		}
 		if len(g.enums) > 0 && g.rng.Intn(5) == 0 {
 			return &c16Ty{K: "name", Name: g.enums[g.rng.Intn(len(g.enums))].Name}
 		}
@@ -357,6 +377,13 @@ func (g *c16Gen) strct() *c16Struct {
 					mb.Def = e.Mb[g.rng.Intn(len(e.Mb))].Key
 				}
 			}
+			if g.dep != nil && strings.HasPrefix(mb.Ty.Name, g.dep.Name+"::") && g.rng.Intn(2) == 0 {
+				for _, d := range g.dep.Decls {
+					if d.E != nil && g.dep.Name+"::"+d.E.Name == mb.Ty.Name {
+						mb.Def = d.E.Mb[g.rng.Intn(len(d.E.Mb))].Key
+					}
+				}
+			}
 		case mb.Ty.K != "vector" && mb.Ty.K != "map":
 			if g.rng.Intn(2) == 0 {
 				mb.Def = g.litFor(mb.Ty)
@@ -390,8 +417,13 @@ func (g *c16Gen) iface() *c16Iface {
 
 // c16GenModule: one module of the supported language
 func c16GenModule(rng *rand.Rand, name string, opt c16GenOpt, withIface bool) *c16Module {
-	g := &c16Gen{rng: rng, opt: opt}
-	m := &c16Module{Name: name}
+	return c16GenModuleDep(rng, name, opt, withIface, nil)
+}
+
+// c16GenModuleDep: a module that may use the structs and enums of dep, included as "<dep.Name>.tars"
+func c16GenModuleDep(rng *rand.Rand, name string, opt c16GenOpt, withIface bool, dep *c16Module) *c16Module {
+	g := &c16Gen{rng: rng, opt: opt, dep: dep, n: opt.IdBase}
+	m := &c16Module{Name: name, Dep: dep}
 	nd := 3 + rng.Intn(5)
 	if opt.Small {
 		nd = 1 + rng.Intn(3)
